@@ -1,10 +1,10 @@
 """C05  User functions are only evaluated inside the variable bounds."""
-from . import ctrl, fpk, loop, steps, xform
+from . import ctrl, defs, fpk, loop, steps, xform
 
-OWNED = ["C05.", "C14.next_point_is_clipped_step"]
+OWNED = ["C05.", "C14.next_point_is_clipped_step", "C13.clipped_"]
 REQUIRED = [
     "C05.evaluation_point_in_box", "C05.trial_iterate_in_box", "C05.start_iterate_in_internal_box", "C05.user_callbacks_see_points_inside_the_user_bounds", "C05.result_in_box", "C05.start_in_box",
-    "C05.fp64.clipped_point_inside_bounds_exactly", "C05.fp64.clipped_point_not_nan", "C14.next_point_is_clipped_step",
+    "C05.fp64.clipped_point_inside_bounds_exactly", "C05.fp64.clipped_point_not_nan", "C14.next_point_is_clipped_step", "C13.clipped_in_box", "C13.clipped_is_projection",
 ]
 META = dict(
     functions_encoded=ctrl.FUNCTIONS + fpk.FUNCTIONS + ["(start) " + f for f in xform.FUNCTIONS[:4]] + ["(result) pygradflow/solver.py:Solver.solve"],
@@ -29,6 +29,10 @@ def tasks(tier):
     o = dict(nra=True, timeout_ms=120000)
     for sv in steps.SOLVERS:
         t.append(dict(module="steps", fn="h_step", shape=dict(vars=["boxed"], cons=["eq0"], solver=sv), opts=o))
+    # lemma used by the Armijo line search: Iterate.clipped() is the projection onto the box, for
+    # arbitrary points (exact arithmetic, nlsat)
+    for v, c, f in ((["boxed"], ["eq0"], "coo"), (["lower", "upper"], [], "csr")):
+        t.append(dict(module="defs", fn="h_iterate", shape=dict(vars=v, cons=c, fmt=f), opts=dict(nra=True, norm_model="exact", timeout_ms=60000)))
     fo = dict(nra=True, timeout_ms=300000)
     kinds = [["boxed"], ["lower", "upper"]] if q else [["boxed"], ["lower", "upper"], ["boxed", "boxed"], ["free", "boxed"]]
     for k in kinds:
